@@ -18,6 +18,7 @@ import z3
 from . import source
 from .interp import Interp, Engine, Path, explore, RaiseEx, Undecided, PathEnd
 from .values import NDArr, Obj, FuncRef, is_sym, to_z3, as_int_term, concrete_int
+from .symlist import SymList, SymDict, from_list as _symlist_from
 
 
 class Contract:
@@ -90,6 +91,11 @@ class Equiv:
                 self.ob(f"{label}.shape{k}", to_z3(s) == to_z3(t))
             idx = [self.path.fresh("sk") for _ in vb.shape]
             rng = [z3.And(i >= 0, i < to_z3(s)) for i, s in zip(idx, vs.shape)]
+            if getattr(vs.store, "havoc", False) and getattr(vs.store, "havoc_pred", None) is not None:
+                # the contract leaves the CONTENTS of this result unspecified (frame contracts): only its shape and the
+                # stated element predicate (e.g. "entries are bits") are part of the postcondition
+                self.ob(label + ".elements", vs.store.havoc_pred(as_int_term(vb.get(*idx))), extra=rng)
+                return
             a, b = as_int_term(vb.get(*idx)), as_int_term(vs.get(*idx))
             if z3.is_real(a) != z3.is_real(b):
                 a = z3.ToReal(a) if z3.is_int(a) else a
@@ -109,6 +115,40 @@ class Equiv:
                     continue
                 self.eq(f"{label}.{f}", vb.fields[f], vs.fields[f])
             return
+        if isinstance(vb, SymDict) or isinstance(vs, SymDict):
+            # dicts of symbolic size: same number of entries, and entry i (insertion order) has the same key and value
+            if not (isinstance(vb, SymDict) and isinstance(vs, SymDict)):
+                self.ob(label + ".kind", z3.BoolVal(False))
+                return
+            self.ob(label + ".len", to_z3(vb.length) == to_z3(vs.length))
+            m = self.path.fresh("sk")
+            rng = [m >= 0, m < to_z3(vs.length)]
+            self.ob(label + ".key", as_int_term(vb.key(m)) == as_int_term(vs.key(m)), extra=rng)
+            self.ob(label + ".value", as_int_term(vb.val(m)) == as_int_term(vs.val(m)), extra=rng)
+            return
+        if isinstance(vb, SymList) or isinstance(vs, SymList):
+            # lists of symbolic length: equal lengths, equal elements at a skolem position
+            if not all(isinstance(v, (SymList, list)) for v in (vb, vs)):
+                self.ob(label + ".kind", z3.BoolVal(False))
+                return
+            if getattr(vs, "havoc", False):
+                return  # the contract leaves this list unspecified (frame contracts)
+            lb = vb if isinstance(vb, SymList) else _symlist_from(vb)
+            ls = vs if isinstance(vs, SymList) else _symlist_from(vs)
+            self.ob(label + ".len", to_z3(lb.length) == to_z3(ls.length))
+            m = self.path.fresh("sk")
+            eb, es = lb.get(m), ls.get(m)
+            if _is_matrix_like(eb) and _is_matrix_like(es):
+                # elements are abstract matrices (e.g. abstract networkx graphs): same size, same entries at a skolem index
+                rng = [m >= 0, m < to_z3(ls.length)]
+                self.ob(label + ".elem.n", to_z3(eb.payload["n"]) == to_z3(es.payload["n"]), extra=rng)
+                i_, j_ = self.path.fresh("sk"), self.path.fresh("sk")
+                nn = to_z3(es.payload["n"])
+                self.ob(label + ".elem.adjacency", as_int_term(eb.payload["adj"](i_, j_)) == as_int_term(es.payload["adj"](i_, j_)),
+                        extra=rng + [i_ >= 0, i_ < nn, j_ >= 0, j_ < nn])
+                return
+            self.ob(label, as_int_term(eb) == as_int_term(es), extra=[m >= 0, m < to_z3(ls.length)])
+            return
         if isinstance(vb, (list, tuple)) and isinstance(vs, (list, tuple)):
             if type(vb) is not type(vs) or len(vb) != len(vs):
                 self.ob(label + ".len", z3.BoolVal(False))
@@ -124,6 +164,13 @@ class Equiv:
                 return
             for k in vb:
                 self.eq(f"{label}[{k!r}]", vb[k], vs[k])
+            return
+        if _is_matrix_like(vb) and _is_matrix_like(vs) and vb.tag == vs.tag:
+            # abstract values that denote a square matrix (e.g. an abstract networkx graph = its adjacency): compare contents
+            from .values import new_array
+
+            pb, ps = vb.payload, vs.payload
+            self.eq(label + ".adjacency", new_array((pb["n"], pb["n"]), pb["adj"], "adj"), new_array((ps["n"], ps["n"]), ps["adj"], "adj"))
             return
         if is_sym(vb) or is_sym(vs):
             if isinstance(vb, (NDArr, Obj, list, dict, str, type(None))) or isinstance(vs, (NDArr, Obj, list, dict, str, type(None))):
@@ -143,6 +190,12 @@ class Equiv:
         except Exception:  # noqa: BLE001
             same = vb is vs
         self.ob(label, z3.BoolVal(bool(same)))
+
+
+def _is_matrix_like(v):
+    from .values import Opaque
+
+    return isinstance(v, Opaque) and isinstance(v.payload, dict) and "n" in v.payload and "adj" in v.payload
 
 
 def build_idmap(a, b, out=None):
@@ -371,6 +424,13 @@ class Task:
             if (real_exc or "").split(":")[0] == (spec_exc or ""):
                 wit["note"] = "real code raises what the contract prescribes"
                 return wit, False
+            if real_exc is not None and spec_exc is None and self.contract.permitted_raises is not None:
+                try:
+                    if self.contract.permitted_raises(I, real_exc.split(":")[0], *cargs):
+                        wit["note"] = "real code takes an abrupt exit the contract permits on this input"
+                        return wit, False
+                except Exception:  # noqa: BLE001
+                    pass
             wit["actual"] = f"raises {real_exc}" if real_exc else "returns normally"
             wit["expected"] = f"raises {spec_exc}" if spec_exc else "returns normally with the contract's result"
             return wit, True
